@@ -264,6 +264,7 @@ impl AbstractTree for Tree {
     fn clear(&self) -> crate::Result<()> {
         let config = self.tree_config();
         let mut versions = self.get_version_history_lock();
+        let old_version = versions.latest_version().version;
 
         versions.upgrade_version(
             &config.path,
@@ -276,7 +277,17 @@ impl AbstractTree for Tree {
             },
             &config.seqno,
             &config.visible_seqno,
-        )
+        )?;
+
+        // NOTE: The files are unlinked once the last snapshot still holding them is gone
+        for table in old_version.iter_tables() {
+            table.mark_as_deleted();
+        }
+        for blob_file in old_version.blob_files.iter() {
+            blob_file.mark_as_deleted();
+        }
+
+        Ok(())
     }
 
     #[doc(hidden)]
